@@ -199,6 +199,41 @@ fn run_prog(idx: usize, line: &str) -> String {
     }
   }
   // pass 2: the real compile_sources
+  if !srcs.iter().any(|(n, _)| *n == entry) {
+    // entry module absent: exercise compile_sources' own entry check (lib.rs:54-61)
+    let srcs2 = srcs.clone();
+    let entry2 = entry.clone();
+    let r = catch_unwind(AssertUnwindSafe(move || {
+      let heap = &mut Heap::new();
+      let mut handles: HashMap<ModuleReference, String> = HashMap::new();
+      if with_std {
+        for (m, s) in samlang_parser::builtin_std_raw_sources(heap) {
+          handles.insert(m, s);
+        }
+      }
+      for (name, text) in &srcs2 {
+        let parts: Vec<String> = name.split('.').map(|s| s.to_string()).collect();
+        handles.insert(heap.alloc_module_reference_from_string_vec(parts), text.clone());
+      }
+      let parts: Vec<String> = entry2.split('.').map(|s| s.to_string()).collect();
+      let e = heap.alloc_module_reference_from_string_vec(parts);
+      samlang_compiler::compile_sources(heap, handles, vec![e], false).map(|_| ())
+    }));
+    match r {
+      Ok(Ok(())) => {
+        ans.insert("compile".into(), "ok".into());
+      }
+      Ok(Err(e)) => {
+        ans.insert("compile".into(), "err".into());
+        ans.insert("msg".into(), e.chars().take(300).collect::<String>().into());
+      }
+      Err(e) => {
+        ans.insert("compile".into(), "panic".into());
+        ans.insert("msg".into(), panic_msg(&e).into());
+      }
+    }
+    return serde_json::Value::Object(ans).to_string();
+  }
   match compile_program(&srcs, &entry, with_std) {
     CompileOutcome::Errors(e) => {
       ans.insert("compile".into(), "err".into());
